@@ -418,11 +418,11 @@ def regex_search(I, node, rgx, val, st, anchored_match=False):
     # native string
     e = val.expr
     core = R.z3re()
-    if R.ngroups and anch:
-        # capture groups on a string of unknown length: complete split on its length; lengths 0..K are
+    if R.ngroups and anch and getattr(I, 'vectorize_k', None):
+        # (contract option vectorize_k) capture groups on a string of unknown length: complete split on its length; lengths 0..K are
         # handled exactly on code-point vectors, the residual (len > K) by an over-approximation
         # (any groups within their own sub-languages) - sound for exception freedom only
-        K = getattr(I, 'vectorize_k', 16)
+        K = I.vectorize_k
         for k in range(K + 1):
             st_k = st.fork()
             cs = [I.fresh('rx.c%d' % j, z3.IntSort()) for j in range(k)]
